@@ -117,6 +117,12 @@ def finish(prop, tier, obs, errors, t0, explanation, rule_text, extra=None, self
     new = [o for o in viol if o.key() not in known_open]
     listed = [o for o in viol if o.key() in known_open]
     os.makedirs(REPLAY_DIR, exist_ok=True)
+    for fn in os.listdir(REPLAY_DIR):
+        if fn.startswith(prop + "-") and fn.endswith(".json"):
+            try:
+                os.remove(os.path.join(REPLAY_DIR, fn))
+            except OSError:
+                pass
     lines = []
     for o in listed:
         lines.append("KNOWN-FINDING: property=%s %s %s %s (%s)" % (prop, o.rule, o.construct, o.what, o.loc))
